@@ -35,7 +35,7 @@ def run(chk):
     dirs = []
     for wi in range(15 if quick else 150):
         wj, sph = any_world(rng)
-        seed = rng.choice([1, 2, 1000, rng.randrange(1 << 31)])
+        seed = rng.choice([0, 1, 2, 1000, rng.randrange(1 << 31)])      # 0 is a legal seed too
         # a random model so that the seed is observable
         for f in wj["features"]:
             if f["model"] == "continental plate" and rng.random() < 0.7:
